@@ -36,11 +36,17 @@
     (`pinned_code_modifies_callers_matrix`) — and cannot be dropped (`retry_needs_fresh_matrix`: a working copy that
     an abandoned attempt has reduced and the next attempt starts from gives a well-formed circuit for the wrong matrix).
 
-  NOT proved (named residue): that the numerical solver finds parameters (`decomposeTriangle … = some _`
-  and "within the configured retries"), that the final `u` of a unitary input is diagonal up to the
-  precision (`lower_triangular_unitary_is_diagonal` is the exact-arithmetic half of it; the floating-point
-  half is measured on every instance by the harness), and the size of `err` (≤ number of cells × precision in
-  spectral norm for unitary blocks; measured on every instance, never assumed).
+  * (round 4) the existence clause as mathematics: for `BS(theta)//PS(phi)` and `catalog['mzi phase last']` the equation
+    handed to the solver has a closed-form root for every pair of complex numbers (`bsPs_exists_nulling_parameters`,
+    `mzi_exists_nulling_parameters`, `universal_block_solve_succeeds`); the size of the floating residue as a theorem
+    (`final_u_lower_triangular`, `residue_bound`, `decomposition_error_bound`, `…_precision`, `…_no_phase_layer`); the
+    control flow of `Circuit.decomposition` (`decomposition_returns_circuit_iff`, `…_none_iff`, `…_not_implemented_iff`,
+    `allow_error_never_none`); the order of the constraint loop and constraint adherence (`constraints_tried_in_order`,
+    `returned_parameters_respect_a_constraint`).
+
+  NOT proved (named residue): that the numerical minimiser (scipy) FINDS the root that exists ("within the configured
+  retries": sampled only); existence for blocks other than the two universal ones; IEEE rounding inside numpy / sympy
+  (the bounds are about exact complex arithmetic on the observed blocks; 1e-9 slack in the harness).
 -/
 import PercevalModel.Lemmas.C12
 import PercevalModel.Lemmas.C12Phase
@@ -49,6 +55,7 @@ import PercevalModel.Lemmas.C12Exist
 import PercevalModel.Lemmas.C12Bound
 import PercevalModel.Lemmas.C12Tri
 import PercevalModel.Lemmas.C12NearDiag
+import PercevalModel.Lemmas.C12Glue
 import PercevalModel.Num.GQ
 import Mathlib.LinearAlgebra.Matrix.Notation
 import Mathlib.LinearAlgebra.Matrix.Block
@@ -862,5 +869,150 @@ theorem decomposition_error_bound_no_phase_layer (cfg : Cfg ℂ) {m : ℕ} (U : 
 
 /-- the hypotheses of `residue_bound` / `decomposition_error_bound` are satisfiable (the identity, no cell solved) -/
 example : IsUnitary (1 : Matrix (Fin 2) (Fin 2) ℂ) := isUnitary_one
+
+end PM.C12
+
+/-! ### the glue of `Circuit.decomposition` (`Model/C12Glue.lean`) and the constraint loop -/
+
+namespace PM.C12
+
+open Glue Solve
+
+/-- `decomposition_returns_circuit_iff`.  `Circuit.decomposition` hands back a circuit built from attempt `k` exactly
+when the shape resolves to the triangle, the matrix is a non-symbolic unitary, the constraints are well formed,
+`k < max_try`, attempt `k` of `decompose_triangle` returned a list and no earlier attempt did. -/
+theorem decomposition_returns_circuit_iff (r : Req) (attempts : ℕ → Bool) (k : ℕ) :
+    outcome r attempts = .circuit k ↔
+      Valid r .triangle ∧ k < r.maxTry ∧ attempts k = true ∧ ∀ i, i < k → attempts i = false := by
+  constructor
+  · intro h
+    by_cases hv : ∃ sh, Valid r sh
+    · obtain ⟨sh, hv⟩ := hv
+      rw [outcome_of_valid hv] at h
+      by_cases hsh : sh = .triangle
+      · subst hsh
+        obtain ⟨_, h2, h3, h4⟩ := (loop_circuit attempts r.maxTry 0 k).1 h
+        exact ⟨hv, by omega, h3, fun i hi => h4 i (Nat.zero_le _) hi⟩
+      · rw [loop_not_triangle sh hsh] at h
+        split_ifs at h
+    · have := outcome_of_invalid (r := r) (fun sh hsh => hv ⟨sh, hsh⟩) attempts
+      rcases this with e | e <;> rw [e] at h <;> cases h
+  · rintro ⟨hv, h2, h3, h4⟩
+    rw [outcome_of_valid hv]
+    exact (loop_circuit attempts r.maxTry 0 k).2 ⟨Nat.zero_le _, by omega, h3, fun i _ hi => h4 i hi⟩
+
+/-- `decomposition_returns_none_iff`.  `None` comes back exactly when the request is valid and either `max_try` leaves
+no iteration (whatever the shape: a rectangle request with `max_try <= 0` answers `None`, it does not raise) or the
+shape is the triangle and every one of the `max_try` attempts failed. -/
+theorem decomposition_returns_none_iff (r : Req) (attempts : ℕ → Bool) :
+    outcome r attempts = .none ↔
+      ∃ sh, Valid r sh ∧ (r.maxTry = 0 ∨ (sh = .triangle ∧ ∀ i, i < r.maxTry → attempts i = false)) := by
+  constructor
+  · intro h
+    by_cases hv : ∃ sh, Valid r sh
+    · obtain ⟨sh, hv⟩ := hv
+      refine ⟨sh, hv, ?_⟩
+      rw [outcome_of_valid hv] at h
+      by_cases hsh : sh = .triangle
+      · subst hsh
+        right
+        exact ⟨rfl, fun i hi => (loop_none_triangle attempts r.maxTry 0).1 h i (Nat.zero_le _) (by omega)⟩
+      · rw [loop_not_triangle sh hsh] at h
+        left
+        by_contra h0
+        rw [if_neg h0] at h
+        cases h
+    · have := outcome_of_invalid (r := r) (fun sh hsh => hv ⟨sh, hsh⟩) attempts
+      rcases this with e | e <;> rw [e] at h <;> cases h
+  · rintro ⟨sh, hv, h0 | ⟨rfl, hall⟩⟩
+    · rw [outcome_of_valid hv, h0]
+      rfl
+    · rw [outcome_of_valid hv]
+      exact (loop_none_triangle attempts r.maxTry 0).2 fun i _ hi => hall i (by omega)
+
+/-- `decomposition_not_implemented_iff`.  `NotImplementedError` is raised exactly for a valid request whose shape is not
+the triangle (the rectangle, or an object that is neither a string nor a member of the enum) when the loop body runs
+at least once. -/
+theorem decomposition_not_implemented_iff (r : Req) (attempts : ℕ → Bool) :
+    outcome r attempts = .notImplementedError ↔ ∃ sh, Valid r sh ∧ sh ≠ .triangle ∧ 0 < r.maxTry := by
+  constructor
+  · intro h
+    by_cases hv : ∃ sh, Valid r sh
+    · obtain ⟨sh, hv⟩ := hv
+      rw [outcome_of_valid hv] at h
+      by_cases hsh : sh = .triangle
+      · subst hsh
+        exfalso
+        -- the triangle loop only answers `none` or `circuit`
+        have : ∀ fuel count, loop .triangle attempts fuel count ≠ .notImplementedError := by
+          intro fuel
+          induction fuel with
+          | zero => intro count; simp [loop]
+          | succ fuel ih =>
+            intro count
+            unfold loop
+            split_ifs
+            · simp
+            · exact ih _
+        exact this _ _ h
+      · rw [loop_not_triangle sh hsh] at h
+        refine ⟨sh, hv, hsh, ?_⟩
+        by_contra h0
+        have : r.maxTry = 0 := by omega
+        rw [if_pos this] at h
+        cases h
+    · have := outcome_of_invalid (r := r) (fun sh hsh => hv ⟨sh, hsh⟩) attempts
+      rcases this with e | e <;> rw [e] at h <;> cases h
+  · rintro ⟨sh, hv, hsh, h0⟩
+    rw [outcome_of_valid hv, loop_not_triangle sh hsh, if_neg (by omega)]
+
+/-- the quirk, as a concrete instance: a rectangle request with `max_try = 0` answers `None` -/
+example : outcome { shape := .str (some .rectangle), unitary := true, symbolic := false, constraints := .none,
+                    nparams := 2, maxTry := 0 } (fun _ => true) = .none := by decide
+
+/-- `allow_error=True`: `solve` never answers `None`, whatever the minimiser returns, so no attempt of
+`decompose_triangle` is abandoned because of the solver (a non-empty list of constraints assumed) -/
+theorem allow_error_never_none {α β : Type} [AddGroup β] [LinearOrder β] (opt : (List α → β) → List α → List α)
+    (prec : β) (f : List α → β) (x0 : List α) (c : List (Option α)) (rest : List (List (Option α))) :
+    (solveCell opt true prec f x0 (c :: rest)).isSome = true := by
+  have h := solve_allow_error_isSome opt prec f x0 c
+  obtain ⟨x, hx⟩ := Option.isSome_iff_exists.1 h
+  simp [solveCell, List.findSome?, hx]
+
+/-- an EMPTY list of constraints makes every cell that needs the solver fail (`for c in constraints` does not run,
+`res` stays `None`): `constraints=[]` is not the same as `constraints=None` -/
+theorem empty_constraint_list_fails {α β : Type} [AddGroup β] [LinearOrder β] (opt : (List α → β) → List α → List α)
+    (ae : Bool) (prec : β) (f : List α → β) (x0 : List α) : solveCell opt ae prec f x0 [] = none := rfl
+
+/-- `constraints_tried_in_order`: the constraint loop retains the answer of the FIRST listed entry `solve` accepts -/
+theorem constraints_tried_in_order {α β : Type} [AddGroup β] [LinearOrder β] (opt : (List α → β) → List α → List α)
+    (ae : Bool) (prec : β) (f : List α → β) (x0 : List α) (constraints : List (List (Option α))) (x : List α)
+    (h : solveCell opt ae prec f x0 constraints = some x) :
+    ∃ before c after, constraints = before ++ c :: after ∧ solve opt ae prec f x0 c = some x ∧
+      ∀ c' ∈ before, solve opt ae prec f x0 c' = none :=
+  solveCell_first opt ae prec f x0 constraints x h
+
+/-- `returned_parameters_respect_a_constraint`: the parameter vector of every solved cell has one value per free
+parameter and carries every value imposed by one of the listed constraints (the first one `solve` accepted) at its own
+position — hence so does every block of the returned circuit. -/
+theorem returned_parameters_respect_a_constraint {α β : Type} [AddGroup β] [LinearOrder β]
+    (opt : (List α → β) → List α → List α) (hopt : ∀ g y, (opt g y).length = y.length) (ae : Bool) (prec : β)
+    (f : List α → β) (x0 : List α) (constraints : List (List (Option α)))
+    (hlen : ∀ c ∈ constraints, x0.length = c.length) (x : List α)
+    (h : solveCell opt ae prec f x0 constraints = some x) :
+    ∃ c ∈ constraints, Respects c x := by
+  obtain ⟨l₁, c, l₂, hl, hr, -⟩ := solveCell_respects opt hopt ae prec f x0 constraints hlen x h
+  exact ⟨c, by rw [hl]; simp, hr⟩
+
+/-- non-vacuity: `[(3,), (None,)]`, the first entry is rejected, the second gives the minimiser's root; the retained
+vector respects the second entry -/
+example : solveCell (fun _ _ => [0]) false (1 : ℤ) (fun x : List ℤ => x.sum) [5] [[some 3], [none]] = some [0] ∧
+    Respects ([none] : List (Option ℤ)) [0] := by
+  refine ⟨?_, rfl, by intro k v hk; cases k <;> simp at hk⟩
+  have h1 : solve (fun _ _ => [0]) false (1 : ℤ) (fun x : List ℤ => x.sum) [5] [some 3] = none := by
+    rw [solve]; simp [firstSome, splice]; rw [solve]; simp [firstSome]
+  have h2 : solve (fun _ _ => [0]) false (1 : ℤ) (fun x : List ℤ => x.sum) [5] [none] = some [0] := by
+    rw [solve]; simp [firstSome]
+  simp [solveCell, List.findSome?, h1, h2]
 
 end PM.C12
